@@ -52,6 +52,7 @@ REGISTRY = {
     "X05": ("checks.x05", "run"),
     "X06": ("checks.x06", "run"),
     "X07": ("checks.x07", "run"),
+    "X08": ("checks.x08", "run"),
 }
 
 
